@@ -144,4 +144,38 @@ theorem C11_history_observables (d : Dict) (l : LenTy) (hl : l.Law) (s : Slice)
 
 /-- non-vacuity: `FlatVec<u16, u16>` [1] in a 7-byte buffer validates, and `push 2; push 3; pop` is a well-formed history -/
 example : (vecD (primD 2 2) L16).validateU ⟨0, [1,0, 1,0, 9,9, 9]⟩ = .ok () := by decide
+
+/-- a history of `push` / `push_str` calls on a mapped `FlatString<L>` at address `addr`, as the code performs it: geometry from the
+buffer length, current length from the length field, then the byte-level operation (`none` on a fault) -/
+def strRun (l : LenTy) (addr : Nat) : Bytes → List Bytes → Option Bytes
+  | bs, [] => some bs
+  | bs, xs :: rest =>
+    match strGeo l bs.length, l.readU ⟨addr, bs⟩ with
+    | .ok g, .ok len =>
+      match vecOp g bs len (.pushBytes xs) with
+      | .ok o => strRun l addr o.bytes rest
+      | _ => none
+    | _, _ => none
+
+/-- **C11 for `FlatString`, every history.** From any slice that validates as `FlatString<L>`, any finite sequence of `push` / `push_str`
+calls with valid UTF-8 arguments — accepted or refused, in any order — never faults, keeps the buffer length, and leaves bytes that
+validate as `FlatString<L>` again: the text is valid UTF-8 within the unchanged capacity after every history. -/
+theorem C11_str_history (l : LenTy) (addr : Nat) : ∀ (xss : List Bytes) (bs : Bytes), l.size ≤ bs.length →
+    (strD l).validateU ⟨addr, bs⟩ = .ok () → (∀ xs ∈ xss, Utf8Ok xs) →
+    ∃ bs', strRun l addr bs xss = some bs' ∧ bs'.length = bs.length ∧ (strD l).validateU ⟨addr, bs'⟩ = .ok () := by
+  intro xss
+  induction xss with
+  | nil => intro bs _ hv _; exact ⟨bs, rfl, rfl, hv⟩
+  | cons xs rest ih =>
+    intro bs hlen hv hall
+    obtain ⟨g, len, o, hg, hr, ho, hol, hv', _, _⟩ := C11_str_push l ⟨addr, bs⟩ hlen hv xs (hall xs (by simp))
+    have hol' : o.bytes.length = bs.length := hol
+    obtain ⟨bs', hrun, hl', hv''⟩ := ih o.bytes (by omega) hv' (fun x hx => hall x (by simp [hx]))
+    have hg' : strGeo l bs.length = .ok g := hg
+    refine ⟨bs', ?_, by omega, hv''⟩
+    simp only [strRun, hg', hr, ho]
+    exact hrun
+/-- non-vacuity: "a" in a 4-byte `FlatString<u8>`; push "é" (fits), then "bcd" (refused): the run ends on the bytes after the first push -/
+example : strRun ⟨1, 1, false⟩ 0 [1, 0x61, 9, 9] [[0xC3, 0xA9], [0x62, 0x63, 0x64]] = some [3, 0x61, 0xC3, 0xA9] := by decide
+
 end FV.Props
